@@ -123,6 +123,15 @@ def run(ctx):
             work = [o if (len(o) > 1 and isinstance(o[1], str) and o[1].startswith("/shift")) else
                     [o[0]] + [("/work" + x if isinstance(x, str) and x.startswith("/") else x) for x in o[1:]] for o in work
                     if o[0] in ("makedir", "create", "open", "write", "hclose", "remove", "removedir", "removetree", "truncate", "seek", "setinfo")]
+            if i % 2 == 1 and v.bpc == 512:
+                # fragmented free space: A, KEEP, C written back to back, A and C removed; /work's cluster is almost full, a name of 240 characters
+                # (20 slots; 512-byte clusters hold 16) makes it grow by TWO clusters in one rewrite — they are A's and C's, KEEP lies between them (C12-m8: the new clusters
+                # zeroed as one extent from the first to the last)
+                pre += [["open", "fa", "/keep/A1.BIN", "w"], ["write", "fa", "a1" * v.bpc], ["hclose", "fa"],
+                        ["open", "fk", "/keep/BETWEEN.BIN", "w"], ["write", "fk", bytes(range(1, 252)).hex() * (v.bpc // 251 + 1)], ["hclose", "fk"],
+                        ["open", "fc", "/keep/C1.BIN", "w"], ["write", "fc", "c1" * v.bpc], ["hclose", "fc"]] + \
+                       [["create", f"/work/W{q:02d}.TXT"] for q in range(10)] + [["remove", "/keep/A1.BIN"], ["remove", "/keep/C1.BIN"]]
+                work = [["create", "/work/" + "n" * 236 + ".txt"]] + work
             if i % 2 == 1:
                 # operations in the ROOT directory itself (the fixed region on FAT12/16): everything below /keep and /work is protected
                 work = [["makedir", "/made in the root"], ["create", "/root file.txt"], ["makedir", "/made in the root/second level"],
